@@ -22,6 +22,13 @@ CONSTANTS Rules,        \* set of [lhs, rhs]  (rhs: sequence of symbols; helper 
           Start, Input, \* start symbol, input as a sequence of terminals
           PrefixMode,   \* TRUE = ParsingMode.INCOMPLETE
           AdmitByCore,  \* TRUE = specification (one item per core), FALSE = implementation (core + children)
+          CatchUp,      \* what predict does when the predicted symbol has already been completed empty in this column:
+                        \*   "always"  advance the predicting item (textbook; with implementation admission this is the
+                        \*             seeded change C06-a: unbounded on a left recursion followed by a nullable symbol)
+                        \*   "never"   the implementation before the repair F38: words such as "c" of
+                        \*             <start> ::= <o> <x>; <x> ::= <o> "c"; <o> ::= "y"? are rejected
+                        \*   "guarded" advance it unless an item with the same core is already in the column (the repair)
+          AnyOrder,     \* TRUE = pending items are processed in any order; FALSE = one fixed order
           MaxSize       \* bound on `size` used only to keep the violating model finite
 
 N == Len(Input)
@@ -37,34 +44,38 @@ Admissible(k, it) == /\ it.size <= MaxSize
                      /\ IF AdmitByCore THEN \A x \in chart[k] : Core(x) # Core(it)
                         ELSE it \notin chart[k]
 \* add a set of candidate items to column k
-AddAll(k, cands) ==
+AddAll(t, k, cands) ==
   LET new == { it \in cands : Admissible(k, it) }
       \* with AdmitByCore keep one representative per core among the candidates themselves
       pick == IF AdmitByCore THEN { it \in new : \A y \in new : Core(y) = Core(it) => y.size >= it.size } ELSE new
   IN /\ chart' = [chart EXCEPT ![k] = @ \cup pick]
-     /\ todo' = (todo \ {CHOOSE t \in todo : TRUE}) \cup { <<k, it>> : it \in pick }
+     /\ todo' = (todo \ {t}) \cup { <<k, it>> : it \in pick }
 
 Init == /\ chart = [k \in 0..N |-> IF k = 0 THEN { Item("S'", <<Start>>, 0, 0, 0) } ELSE {}]
         /\ todo = { <<0, Item("S'", <<Start>>, 0, 0, 0)>> }
 
-\* process one pending item (the CHOOSE makes the closure order deterministic: one behaviour)
-Step ==
-  /\ todo # {}
-  /\ LET t == CHOOSE t \in todo : TRUE  k == t[1]  it == t[2] IN
+\* items that predict may advance over an already finished empty derivation of the predicted symbol
+CaughtUp(k, it) ==
+  LET cands == { [it EXCEPT !.dot = @ + 1, !.size = @ + f.size + 1] :
+                   f \in { f \in chart[k] : Finished(f) /\ f.lhs = NextSym(it) /\ f.origin = k } }
+  IN CASE CatchUp = "always"  -> cands
+       [] CatchUp = "never"   -> {}
+       [] CatchUp = "guarded" -> { c \in cands : \A x \in chart[k] : Core(x) # Core(c) }
+
+\* process one pending item
+Step(t) ==
+  /\ LET k == t[1]  it == t[2] IN
      IF ~Finished(it) /\ ~(PrefixMode /\ k = N /\ it.size > 0 /\ FALSE)
      THEN IF NextSym(it) \in NT
           THEN \* predict
-               AddAll(k, { Item(r.lhs, r.rhs, 0, k, 0) : r \in { r \in Rules : r.lhs = NextSym(it) } }
-                         \cup \* completion by an already finished (possibly empty) item of that symbol
-                         { [it EXCEPT !.dot = @ + 1, !.size = @ + f.size + 1] :
-                               f \in { f \in chart[k] : Finished(f) /\ f.lhs = NextSym(it) /\ f.origin = k } })
+               AddAll(t, k, { Item(r.lhs, r.rhs, 0, k, 0) : r \in { r \in Rules : r.lhs = NextSym(it) } } \cup CaughtUp(k, it))
           ELSE \* scan
                IF k < N /\ Input[k+1] = NextSym(it)
                THEN /\ chart' = [chart EXCEPT ![k+1] = @ \cup {[it EXCEPT !.dot = @ + 1, !.size = @ + 1]}]
                     /\ todo' = (todo \ {t}) \cup { <<k+1, [it EXCEPT !.dot = @ + 1, !.size = @ + 1]>> }
                ELSE /\ todo' = todo \ {t} /\ UNCHANGED chart
      ELSE \* complete (finished item)
-          AddAll(k, { [p EXCEPT !.dot = @ + 1, !.size = @ + it.size + 1] :
+          AddAll(t, k, { [p EXCEPT !.dot = @ + 1, !.size = @ + it.size + 1] :
                         p \in { p \in chart[it.origin] : ~Finished(p) /\ NextSym(p) = it.lhs } })
 
 \* prefix mode: at the end of the input every item that has collected something is treated as complete
@@ -78,11 +89,13 @@ PrefixComplete ==
               /\ chart' = [chart EXCEPT ![N] = @ \cup new]
               /\ todo' = { <<N, c>> : c \in new }
 
-Next == Step \/ PrefixComplete
+Pending == IF AnyOrder \/ todo = {} THEN todo ELSE { CHOOSE t \in todo : TRUE }
+Next == (\E t \in Pending : Step(t)) \/ PrefixComplete
 Spec == Init /\ [][Next]_vars /\ WF_vars(Next)
 
 Quiescent == todo = {} /\ ~ENABLED PrefixComplete
 Terminates == <>[]Quiescent
 Bounded == \A k \in 0..N : \A it \in chart[k] : it.size + 4 <= MaxSize     \* reaching the artificial bound = unbounded growth in reality
+AcceptsAtEnd == Quiescent => \E it \in chart[N] : it.lhs = "S'" /\ Finished(it)     \* for inputs that belong to the language
 Accepts == \E it \in chart[N] : it.lhs = "S'" /\ Finished(it)
 =============================================================================
